@@ -58,6 +58,8 @@ int gc_gen(cs_t *cs, gcase_t *c, const runcfg_t *cfg, int prop) {
                 if (prop == 3) in = (fl & F_DSTR) != 0;
                 else if (prop == 4) in = (fl & F_CLEAR) != 0;
                 else if (prop == 8) in = (fl & F_SLACK) != 0;
+                else if (prop == 6) in = g_rows[i].fam != FAM_QUERY;
+                else if (prop == 10) in = g_rows[i].fam == FAM_QUERY;
                 if (in) sub[prop][nsub[prop]++] = i;
             }
         }
@@ -69,12 +71,13 @@ int gc_gen(cs_t *cs, gcase_t *c, const runcfg_t *cfg, int prop) {
 
     /* ---------- dest ---------- */
     if (small) {
-        long SM = 9;
+        long SM = prop == 10 ? 4 : 9;
+        long SSM = prop == 10 ? 3 : SM + 1;
         c->dkind = DK_EXACT;
-        c->dmax = (size_t)cs_range(cs, 0, SM);
+        c->dmax = (size_t)cs_range(cs, prop == 10 ? 1 : 0, SM);
         if (r->du < r->w) c->dmax *= (size_t)(r->w / r->du) , c->dmax += (size_t)cs_range(cs, 0, 1); /* byte-sized dmax for 16/32-bit rows, incl. odd */
         c->dtrue = c->dmax * (size_t)r->du;
-        c->dbos = (int)cs_range(cs, 0, 1);
+        c->dbos = prop == 10 ? (int)cs_noise(cs, 0, 1) : (int)cs_range(cs, 0, 1);
         c->dplace = PL_END;
         c->dest_null = 0;
         if (r->fl & F_DIN) {
@@ -86,11 +89,12 @@ int gc_gen(cs_t *cs, gcase_t *c, const runcfg_t *cfg, int prop) {
         else c->dcontent = DC_GARBAGE;
         if (r->fl & F_SRC) {
             c->src_null = 0;
-            c->sbos = (r->fl & F_SRCBOS) ? (int)cs_range(cs, 0, 1) : 0;
+            c->sbos = (r->fl & F_SRCBOS) ? (prop == 10 ? (int)cs_noise(cs, 0, 1) : (int)cs_range(cs, 0, 1)) : 0;
             c->splace = PL_END;
             if (r->fl & F_SLEN) c->slen = (size_t)cs_range(cs, 0, SM + 1);
             if (r->fl & F_SRCSTR) {
                 size_t lim = (r->fl & F_SLEN) ? c->slen : (size_t)SM + 1;
+                if ((long)lim > SSM) lim = (size_t)SSM;
                 c->slen_true = (size_t)cs_range(cs, 0, (long)lim);
                 if ((r->fl & F_SLEN) && c->slen_true >= c->slen && c->slen > 0 && cs_range(cs, 0, 1)) {
                     /* unterminated array exactly filling slen */
@@ -114,6 +118,17 @@ int gc_gen(cs_t *cs, gcase_t *c, const runcfg_t *cfg, int prop) {
             static const long vals[] = {'a', 0, ' ', 0xE9, 255, 256, 'A', 1};
             c->val = vals[cs_range(cs, 0, (r->fl & F_VAL255) ? 5 : 4)];
             if (!(r->fl & F_VAL255) && r->fam == FAM_QUERY && (r->fl & F_SRC)) c->val = cs_range(cs, 0, 1); /* fold_case */
+        }
+        if (prop == 10 && r->w != 2) {
+            /* exhaustive operand contents over a 4-symbol alphabet {a, A, b|ae, 0xE9|AE} */
+            size_t q;
+            c->ex_on = 1;
+            if (c->dcontent == DC_STR) for (q = 0; q < c->dlen && q < 7; q++) c->ex_d[q] = (uint8_t)cs_range(cs, 0, 3);
+            if ((r->fl & F_SRC) && c->scontent == SC_STR) for (q = 0; q < c->slen_true && q < 7; q++) c->ex_s[q] = (uint8_t)cs_range(cs, 0, 3);
+            c->alpha = 1;
+            if (r->fl & F_VAL) { static const long vv[] = {'a', 'A', 0xE9, 0}; if (r->fl & F_VAL255 || r->out_kind == OUT_PTR) c->val = vv[cs_range(cs, 0, 3)]; }
+            c->cseed = (uint32_t)cs_noise(cs, 0, 0xffffff);
+            return 1;
         }
         c->alpha = (int)cs_range(cs, 0, 1);
         if (prop == 4) c->alpha = 0;
@@ -302,6 +317,11 @@ size_t gc_elem(const unsigned char *p, int w, size_t i) {
     return ((const uint32_t *)(const void *)p)[i];
 }
 
+static uint32_t ex_symbol(int w, unsigned k) {
+    static const uint32_t n1[] = {'a', 'A', 'b', 0xE9, '1', ' ', '\t', 0x80};
+    static const uint32_t w4[] = {'a', 'A', 0xE4, 0xC4, 0xDF, 0x10400, ' ', '1'};
+    return w == 4 ? w4[k & 7] : n1[k & 7];
+}
 /* ---------- handlers ---------- */
 static gexec_t *g_x;
 static void h_str(const char *msg, void *ptr, errno_t err) {
@@ -338,6 +358,8 @@ void gc_run(const gcase_t *c, gexec_t *x) {
         else { v = (uint32_t)(0x81 + (i % 61)); }        /* position coded garbage 0x81..0xBD, non-zero, disjoint from alphabets 0/2 */
         put_elem(x->dest, r->w, i, v);
     }
+    if (c->ex_on && c->dcontent == DC_STR)
+        for (i = 0; i < c->dlen && i < 7 && i < delems; i++) put_elem(x->dest, r->w, i, ex_symbol(r->w, c->ex_d[i]));
     memcpy(x->dest_before, x->dest, c->dtrue);
     a->dest = c->dest_null ? NULL : x->dest;
     a->dmax = c->dmax;
@@ -355,6 +377,8 @@ void gc_run(const gcase_t *c, gexec_t *x) {
             else { v = lcg(&s); if (c->alpha < 2) v = alpha_elem(c->alpha, r->w, &s); else if (lcg(&s) % 4 == 0) v = 0; }
             put_elem(x->src, r->w, i, v);
         }
+        if (c->ex_on && c->scontent == SC_STR)
+            for (i = 0; i < c->slen_true && i < 7 && i < selems; i++) put_elem(x->src, r->w, i, ex_symbol(r->w, c->ex_s[i]));
         memcpy(x->src_before, x->src, c->strue);
         a->src = c->src_null ? NULL : x->src;
         a->slen = c->slen;
@@ -424,5 +448,6 @@ void gc_describe(const void *kase, char *buf, size_t n) {
     if ((r->fl & F_N) && k < (int)n) k += snprintf(buf + k, n - (size_t)k, "; n=%zu", c->n);
     if ((r->fl & F_VAL) && k < (int)n) k += snprintf(buf + k, n - (size_t)k, "; val=%ld", c->val);
     if (c->out_null && k < (int)n) k += snprintf(buf + k, n - (size_t)k, "; out=NULL");
+    if (c->ex_on && k < (int)n) k += snprintf(buf + k, n - (size_t)k, "; explicit d=[%u %u %u %u] s=[%u %u %u %u]", c->ex_d[0], c->ex_d[1], c->ex_d[2], c->ex_d[3], c->ex_s[0], c->ex_s[1], c->ex_s[2], c->ex_s[3]);
     if (k < (int)n) snprintf(buf + k, n - (size_t)k, "; alpha=%d cseed=%u guard=%s)", c->alpha, c->cseed, c->guard == G_RO ? "RO" : "NA");
 }
